@@ -362,6 +362,23 @@ def run(chk, tier, seed, replay):
             configs.append(([f], std, "test"))
     for f in feats:
         configs.append(([f], False, "check_impl"))
+    # feature sets the sources THEMSELVES single out: every `all(feature = "a", feature = "b", ..)` in a cfg / cfg_attr of either crate
+    # names a combination with code (or lints) of its own - those are built in the quick tier too
+    combos = set()
+    for root in (os.path.join(vlib.REPO, "impl", "src"), os.path.join(vlib.REPO, "src")):
+        for dp, _, fns in os.walk(root):
+            for fn in fns:
+                if fn.endswith(".rs"):
+                    text = open(os.path.join(dp, fn), encoding="utf-8", errors="replace").read()
+                    for m in re.finditer(r"\ball\(((?:[^()]|\([^()]*\))*)\)", text):
+                        fs = sorted(set(re.findall(r'feature\s*=\s*"([\w-]+)"', m.group(1))) & set(feats))
+                        if len(fs) >= 2:
+                            combos.add(tuple(fs))
+    chk.notes["feature_combinations_named_by_the_sources"] = sorted(map(list, combos))
+    for fs in sorted(combos):
+        configs.append((list(fs), False, "check_impl"))
+        for std in (False, True):
+            configs.append((list(fs), std, "check"))
     if tier == "thorough":
         for a, b in itertools.combinations(feats, 2):
             for std in (False, True):
